@@ -57,10 +57,17 @@ func cacheConfigs() []repCfg {
 	nopf.TrieCleanNoPrefetch = true
 	nopf.SnapshotLimit = 0
 	nopf.TrieDirtyDisabled = true
+	// a node started with a small --cache / --cache.gc: beyond 128 blocks its dirty trie cache is over the allowance and
+	// BlockChain.writeBlockWithState flushes the oldest nodes to disk (triedb.Cap) block after block
+	smallDirty := def()
+	smallDirty.TrieDirtyLimit = 1
+	smallDirtyOff := def()
+	smallDirtyOff.TrieDirtyLimit, smallDirtyOff.SnapshotLimit = 1, 0
 	nodeDef := &blockchain.CacheConfig{TrieCleanLimit: 154, TrieDirtyLimit: 256, TrieTimeLimit: 60 * time.Minute, SnapshotLimit: 102}
 	nodeArchive := &blockchain.CacheConfig{TrieCleanLimit: 154 + 256*3/5, TrieDirtyLimit: 0, TrieDirtyDisabled: true, TrieTimeLimit: 60 * time.Minute, SnapshotLimit: 102 + 256*2/5, Preimages: true}
 	return []repCfg{{"default", nil, true}, {"snapshots-off", snapOff, false}, {"dirty-disabled", archive, true}, {"preimages", pre, true}, {"tiny-caches", tiny, true},
-		{"noprefetch+snapshots-off+dirty-disabled", nopf, false}, {"node-defaults", nodeDef, true}, {"archive-node", nodeArchive, true}}
+		{"noprefetch+snapshots-off+dirty-disabled", nopf, false}, {"node-defaults", nodeDef, true}, {"archive-node", nodeArchive, true},
+		{"small-dirty-cache", smallDirty, true}, {"snapshots-off+small-dirty-cache", smallDirtyOff, false}}
 }
 
 func cfgByName(name string) repCfg {
@@ -115,12 +122,13 @@ type scenarioOpts struct {
 	Replicas   []repCfg
 	HandOnly   bool // only hand-built blocks (deterministic block content: comparable across processes)
 	ValHook    bool
-	ValDensity int       // ValHook: a height carries a validator report with probability ValDensity/12 (0: 4/12)
-	Reopen     bool      // every replica but the first is stopped and reopened before the last block (and one database image is opened twice)
-	Restarts   bool      // replicas other than the first are stopped and reopened at random heights (the second one often)
-	Evidence   bool      // one hand-built block carries duplicate-vote evidence against a validator (DoubleSign path of the application)
-	Staking    bool      // delegate / undelegate / withdraw calls of the real validator contracts (validator power moves through the real application)
-	Long       *longPlan `json:"long,omitempty"`
+	ValDensity int                  // ValHook: a height carries a validator report with probability ValDensity/12 (0: 4/12)
+	Reopen     bool                 // every replica but the first is stopped and reopened before the last block (and one database image is opened twice)
+	Restarts   bool                 // replicas other than the first are stopped and reopened at random heights (the second one often)
+	Evidence   bool                 // one hand-built block carries duplicate-vote evidence against a validator (DoubleSign path of the application)
+	Staking    bool                 // delegate / undelegate / withdraw calls of the real validator contracts (validator power moves through the real application)
+	Long       *longPlan            `json:"long,omitempty"`
+	Forge      map[int][]forgeEvent `json:"creation_script,omitempty"` // fixed plan of the creation workload (creations.go); nil: drawn
 }
 
 type heightRec struct {
@@ -272,6 +280,7 @@ func runScenario(cs *core.Case, r *rand.Rand, o scenarioOpts, tag string) *finge
 	w := txgen.NewWorld(r, txgen.WorldOpts{Galaxias: o.Galaxias == "genesis", NEOA: 3, NContracts: 3 + r.Intn(3), FixedCoinbase: &val0, RichEOAs: true})
 	fixedContracts(w)
 	directedContracts(w)
+	creationContracts(w)
 	gen := chainkit.Genesis(w, o.Powers, galaxias)
 	rs := &replicaSet{cfgs: append([]repCfg(nil), o.Replicas...)}
 	defer rs.close()
@@ -397,6 +406,11 @@ func runScenario(cs *core.Case, r *rand.Rand, o scenarioOpts, tag string) *finge
 	if o.Long != nil {
 		lo = newLongObserver(run, rs.chains[0])
 	}
+	forgeRate := 1
+	if o.Heights > 40 {
+		forgeRate = 5
+	}
+	ft := newForgeTracker(run, o.Forge, forgeRate)
 	lastCommit := chainkit.EmptyCommit()
 	evidenceAt := 3 + r.Intn(2)
 	for h := 1; h <= o.Heights; h++ {
@@ -429,7 +443,7 @@ func runScenario(cs *core.Case, r *rand.Rand, o scenarioOpts, tag string) *finge
 			builder = 0
 		}
 		bch := rs.chains[builder]
-		po := planOpts{Random: -1, PoolGas: 3000000, Directed: true}
+		po := planOpts{Random: -1, PoolGas: 3000000, Directed: true, Forge: ft}
 		if o.ValDensity > 4 {
 			po.Random = r.Intn(3)
 		}
@@ -439,6 +453,9 @@ func runScenario(cs *core.Case, r *rand.Rand, o scenarioOpts, tag string) *finge
 		}
 		if si != nil {
 			gl = 30000000 // staking calls carry a gas limit of 5,000,000
+		}
+		if o.Forge != nil {
+			gl = configs.BlockGasLimit
 		}
 		if o.Long != nil {
 			po.Random, po.Directed, po.NoGen, po.Extra = r.Intn(3), r.Intn(3) == 0, o.Heights > 40, o.Long.specsAt(h, len(w.EOAs))
@@ -677,6 +694,9 @@ func runScenario(cs *core.Case, r *rand.Rand, o scenarioOpts, tag string) *finge
 		if lo != nil {
 			lo.after(h, rs, x0.bi)
 		}
+		if st, err := trieOnlyOrFirst(rs).N.BC.State(); err == nil {
+			ft.after(h, st, w, snapAndTrie(rs.cfgs))
+		}
 		if len(evidence) > 0 {
 			run.Count("blocks_with_evidence", 1)
 			if rs.chains[0].State.LastHeightValidatorsChanged == height+2 {
@@ -746,6 +766,16 @@ func runScenario(cs *core.Case, r *rand.Rand, o scenarioOpts, tag string) *finge
 	return fp
 }
 
+// trieOnlyOrFirst: the replica whose head state the observers read (a trie-only one: its reads do not touch any snapshot cache).
+func trieOnlyOrFirst(rs *replicaSet) *chainkit.Chain {
+	for i, c := range rs.cfgs {
+		if !c.Snap {
+			return rs.chains[i]
+		}
+	}
+	return rs.chains[0]
+}
+
 func snapAndTrie(cfgs []repCfg) bool {
 	s, t := false, false
 	for _, c := range cfgs {
@@ -774,10 +804,14 @@ type planOpts struct {
 	PoolGas  uint64
 	NoGen    bool            // no txgen.GenTx transactions (they move up to the sender's whole balance: a long chain would run dry)
 	Extra    []*txgen.TxSpec // planned transactions (nonces are assigned here), placed after the random ones
+	Forge    *forgeTracker   // the creation workload (creations.go): planned last, when the nonces before it are known
 }
 
+// forgeStep marks the place of the creation workload in a block plan.
+var forgeStep = &txgen.TxSpec{Class: "forge-plan"}
+
 func isDirected(class string) bool {
-	return strings.HasPrefix(class, "churn-") || strings.HasPrefix(class, "phoenix-") || class == "ballast"
+	return strings.HasPrefix(class, "churn-") || strings.HasPrefix(class, "phoenix-") || strings.HasPrefix(class, "forge-") || class == "ballast"
 }
 
 // planTxs draws the transactions of one block from the head state of a replica, plus calls of the
@@ -822,7 +856,15 @@ func planTxs(r *rand.Rand, w *txgen.World, bc *blockchain.BlockChain, height uin
 	if len(po.Extra) > 0 {
 		steps = append(steps, po.Extra)
 	}
+	if po.Forge != nil {
+		steps = append(steps, []*txgen.TxSpec{forgeStep})
+	}
 	for _, step := range steps {
+		if len(step) == 1 && step[0] == forgeStep {
+			if step = po.Forge.plan(r, int(height), w, st, nonce); len(step) == 0 {
+				continue
+			}
+		}
 		if step == nil {
 			step = []*txgen.TxSpec{txgen.GenTx(r, w, txgen.Ctx{Nonce: func(a common.Address) uint64 { return nonce[a] }, Balance: func(a common.Address) *big.Int { return bal[a] }, PoolGas: pool})}
 		}
